@@ -9,7 +9,7 @@
    (openfermion + qubit encoding) is NOT modelled: it is a Section variable  gen : P -> op
    (op = the items() of the generated QubitOperator, in dict order).  Python's IndexError / KeyError
    / ValueError are results  Err _  (Linq/GateModel.v). *)
-From Coq Require Import List Arith Bool PeanoNat.
+From Coq Require Import List Arith Bool PeanoNat ZArith.
 From Tangelo Require Import Linq.GateModel.
 Import ListNotations.
 
@@ -29,6 +29,17 @@ Fixpoint wblock {X} (start : nat) (vals : list X) (l : list X) : res (list X) :=
   match vals with
   | [] => Ok l
   | x :: r => match upd start x l with Ok l' => wblock (S start) r l' | Err e => Err e end
+  end.
+
+(* l[i] = x for a Python int i: negative indices count from the end *)
+Definition pyupd {X} (i : Z) (x : X) (l : list X) : res (list X) :=
+  if (i <? 0)%Z
+  then (if (- i <=? Z.of_nat (length l))%Z then upd (length l - Z.to_nat (- i)) x l else Err IndexError)
+  else upd (Z.to_nat i) x l.
+Fixpoint wblockz {X} (start : Z) (vals : list X) (l : list X) : res (list X) :=
+  match vals with
+  | [] => Ok l
+  | x :: r => match pyupd start x l with Ok l' => wblockz (start + 1)%Z r l' | Err e => Err e end
   end.
 
 (* list(enumerate(l, k)) with the pair flipped: (item, index) *)
@@ -355,27 +366,60 @@ Section VSQS.
     end.
   Definition getp (th : list T) (i : nat) : res T :=
     match nth_error th i with Some t => Ok t | None => Err IndexError end.
-  Definition vsqs_interval (c : vsqs_cfg) (th : list T) (i : nat) (v : list V) : res (list V) :=
+  (* off = number of variational gates that precede the VSQS ones in circuit._variational_gates *)
+  Definition vsqs_interval (c : vsqs_cfg) (off : nat) (th : list T) (i : nat) (v : list V) : res (list V) :=
     match getp th (stride c * i) with Err e => Err e | Ok t0 =>
-    match upd_qu_op c (hinit c) (n_var_gates c * i) t0 (length (hinit c)) v with Err e => Err e | Ok v1 =>
+    match upd_qu_op c (hinit c) (off + n_var_gates c * i) t0 (length (hinit c)) v with Err e => Err e | Ok v1 =>
     match getp th (stride c * i + 1) with Err e => Err e | Ok t1 =>
-    match upd_qu_op c (hfinal c) (n_var_gates c * i + length (hinit c) * ord c) t1 (length (hfinal c)) v1 with
+    match upd_qu_op c (hfinal c) (off + n_var_gates c * i + length (hinit c) * ord c) t1 (length (hfinal c)) v1 with
     | Err e => Err e | Ok v2 =>
     match hnav c with
     | None => Ok v2
     | Some qn =>
         match getp th (stride c * i + 2) with Err e => Err e | Ok t2 =>
-        upd_qu_op c qn (n_var_gates c * i + (length (hinit c) + length (hfinal c)) * ord c) t2 (length qn) v2
+        upd_qu_op c qn (off + n_var_gates c * i + (length (hinit c) + length (hfinal c)) * ord c) t2 (length qn) v2
         end
     end end end end end.
-  Fixpoint vsqs_loop (c : vsqs_cfg) (th : list T) (is : list nat) (v : list V) : res (list V) :=
+  Fixpoint vsqs_loop (c : vsqs_cfg) (off : nat) (th : list T) (is : list nat) (v : list V) : res (list V) :=
     match is with
     | [] => Ok v
-    | i :: r => match vsqs_interval c th i v with Err e => Err e | Ok v' => vsqs_loop c th r v' end
+    | i :: r => match vsqs_interval c off th i v with Err e => Err e | Ok v' => vsqs_loop c off th r v' end
     end.
-  (* update_var_params: no size test in the source *)
+  (* update_var_params as first written: no size test, offsets counted from gate 0 *)
   Definition vsqs_update (c : vsqs_cfg) (v : list V) (th : list T) : res (list V) :=
-    vsqs_loop c th (seq 0 (n_steps c)) v.
+    vsqs_loop c 0 th (seq 0 (n_steps c)) v.
+
+  (* update_var_params as repaired: set_var_params (size test), then
+       n_ref = len(circuit._variational_gates) - n_var_gates*(intervals-1)      (a Python int: may be negative)
+     and every block starts at n_ref + n_var_gates*i + ...; list indexing follows Python (negative = from the end) *)
+  Definition upd_qu_op_z (c : vsqs_cfg) (q : list C) (start : Z) (t : T) (num : nat) (v : list V) : res (list V) :=
+    match wblockz start (map (gu t) q) v with
+    | Err e => Err e
+    | Ok v1 => if order2 c then wblockz (start + Z.of_nat num) (map (gu t) (rev q)) v1 else Ok v1
+    end.
+  Definition vsqs_interval_z (c : vsqs_cfg) (nref : Z) (th : list T) (i : nat) (v : list V) : res (list V) :=
+    let n_start := (nref + Z.of_nat (n_var_gates c * i))%Z in
+    match getp th (stride c * i) with Err e => Err e | Ok t0 =>
+    match upd_qu_op_z c (hinit c) n_start t0 (length (hinit c)) v with Err e => Err e | Ok v1 =>
+    match getp th (stride c * i + 1) with Err e => Err e | Ok t1 =>
+    match upd_qu_op_z c (hfinal c) (n_start + Z.of_nat (length (hinit c) * ord c)) t1 (length (hfinal c)) v1 with
+    | Err e => Err e | Ok v2 =>
+    match hnav c with
+    | None => Ok v2
+    | Some qn =>
+        match getp th (stride c * i + 2) with Err e => Err e | Ok t2 =>
+        upd_qu_op_z c qn (n_start + Z.of_nat ((length (hinit c) + length (hfinal c)) * ord c)) t2 (length qn) v2
+        end
+    end end end end end.
+  Fixpoint vsqs_loop_z (c : vsqs_cfg) (nref : Z) (th : list T) (is : list nat) (v : list V) : res (list V) :=
+    match is with
+    | [] => Ok v
+    | i :: r => match vsqs_interval_z c nref th i v with Err e => Err e | Ok v' => vsqs_loop_z c nref th r v' end
+    end.
+  Definition vsqs_update_fixed (c : vsqs_cfg) (v : list V) (th : list T) : res (list V) :=
+    if length th =? vsqs_n_var_params c
+    then vsqs_loop_z c (Z.of_nat (length v) - Z.of_nat (n_var_gates c * n_steps c))%Z th (seq 0 (n_steps c)) v
+    else Err ValueError.
 
   (* the parameters that belong on the variational gates, interval by interval *)
   Definition vsqs_interval_layout {X} (c : vsqs_cfg) (g : T -> C -> X) (th : list T) (i : nat) (d : T) : list X :=
